@@ -2,9 +2,10 @@ import Ecal.Lemmas.Pool
 /-! The inductive invariant of the repaired pool protocol, on the counting abstraction. -/
 namespace Ecal.Pool
 
-/-- workers that will look at the queue (and the kill counter) again before they sleep -/
+/-- workers that will look at the queue (and the kill counter) again before they sleep and are not
+    busy with a task: each of them can take a queued task without waiting for any task to finish -/
 def awake (f : Cls → Nat) : Nat :=
-  f .head + f .chkT + f .chkF + f .run + f .noTask + f .idleReg + f .hasL + f .readQT + f .woken + f .unlocking + f .unreg
+  f .head + f .chkT + f .chkF + f .noTask + f .idleReg + f .hasL + f .readQT + f .woken + f .unlocking + f .unreg
 
 /-- workers that decided to sleep -/
 def asleep (f : Cls → Nat) : Nat := f .willWait + f .waiting
@@ -16,17 +17,19 @@ def CState.inflight (s : CState) : Nat := s.pushed + s.adderL + s.swcPend + s.sw
 structure CInv (s : CState) : Prop where
   /-- L is held by at most one thread -/
   excl : s.adderL + s.swcL + holders s.cnt ≤ 1
-  /-- pending work and a sleeper → somebody awake or a wake-up in flight -/
-  q : 0 < s.queue → 0 < asleep s.cnt → 0 < awake s.cnt + s.inflight
-  /-- a worker that read "queue empty" under L while a task is queued: that AddTask still has to signal -/
-  rq : 0 < s.cnt .readQF → 0 < s.queue → 0 < s.pushed
+  /-- while somebody sleeps, every queued task is matched by its own non-busy awake worker or by
+      the Signal of its own AddTask still to come (or a SetWorkerCount broadcast, waking everybody,
+      is still to come) -/
+  q : 0 < asleep s.cnt → s.queue ≤ awake s.cnt + s.pushed + s.adderL ∨ 0 < s.swcPend + s.swcL
+  /-- a worker that read "queue empty" under L: everything queued since then still has to signal -/
+  rq : 0 < s.cnt .readQF → s.queue ≤ s.pushed
   /-- kill request and a sleeper → the broadcast of that SetWorkerCount is still to come -/
   k : 0 < s.kill → 0 < asleep s.cnt → 0 < s.swcPend + s.swcL
 
 theorem cinv_init : CInv cinit := by
   constructor <;> simp [cinit, holders, asleep]
 
-set_option maxHeartbeats 1600000 in
+set_option maxHeartbeats 3200000 in
 theorem cinv_step {s s' : CState} {e : CEvent} (hi : CInv s) (h : cstep s e = some s') : CInv s' := by
   obtain ⟨hx, hq, hrq, hk⟩ := hi
   simp only [holders, awake, asleep, CState.inflight] at hx hq hrq hk
@@ -40,6 +43,9 @@ theorem cinv_step {s s' : CState} {e : CEvent} (hi : CInv s) (h : cstep s e = so
   | killPass =>
     by_cases hj : s.kill = -1 <;> simp [cstep, CState.mv, hj] at h <;>
       (first | (obtain ⟨_, _, rfl⟩ := h) | (obtain ⟨_, rfl⟩ := h)) <;>
+      constructor <;> simp [move, holders, awake, asleep, CState.inflight, hj] <;> omega
+  | drainExit =>
+    by_cases hj : s.kill = -1 <;> simp [cstep, CState.mv, hj] at h <;> obtain ⟨_, rfl⟩ := h <;>
       constructor <;> simp [move, holders, awake, asleep, CState.inflight, hj] <;> omega
   | swcSet c =>
     simp only [cstep] at h
@@ -101,27 +107,28 @@ def CEvent.isResize : CEvent → Bool
   | _ => false
 
 /-- after `SetWorkerCount(c)` (repaired): the workers not yet told to exit minus the kill requests
-    still to be taken are exactly `c`; no worker is on JoinAll's exit-when-drained path -/
+    still to be taken are exactly `c` -/
 def CResize (c : Nat) (s : CState) : Prop :=
-  0 ≤ s.kill ∧ (clive s.cnt : Int) = c + s.kill ∧ s.cnt .chkF = 0
+  0 ≤ s.kill ∧ (clive s.cnt : Int) = c + s.kill
 
-theorem cresize_set {s s' : CState} {c : Nat} (hj : s.cnt .chkF = 0) (hk : 0 ≤ s.kill)
-    (h : cstep s (.swcSet c) = some s') : CResize c s' := by
+theorem cresize_set {s s' : CState} {c : Nat} (h : cstep s (.swcSet c) = some s') (hk : 0 ≤ s'.kill) :
+    CResize c s' := by
   simp only [cstep] at h
   split at h
   · simp at h; subst h
-    refine ⟨by simp, ?_, by simpa [caddHead] using hj⟩
+    refine ⟨by simp, ?_⟩
     simp [clive, caddHead]; simp only [clive] at *; omega
   · split at h
     · simp at h; subst h
-      refine ⟨?_, ?_, hj⟩ <;> simp <;> omega
+      refine ⟨hk, ?_⟩
+      simp at hk ⊢; omega
     · simp at h; subst h
-      refine ⟨by simp, ?_, hj⟩
+      refine ⟨by simp, ?_⟩
       simp; omega
 
 theorem cresize_step {s s' : CState} {c : Nat} {e : CEvent} (hi : CResize c s) (he : e.isResize = false)
     (h : cstep s e = some s') : CResize c s' := by
-  obtain ⟨hk, hl, hj⟩ := hi
+  obtain ⟨hk, hl⟩ := hi
   simp only [clive] at hl
   cases e with
   | swcSet _ => simp [CEvent.isResize] at he
@@ -129,47 +136,105 @@ theorem cresize_step {s s' : CState} {c : Nat} {e : CEvent} (hi : CResize c s) (
   | swcDown _ => simp [CEvent.isResize] at he
   | joinKill => simp [CEvent.isResize] at he
   | popNone ok =>
-    cases ok <;> simp [cstep, CState.mv] at h
-    · omega
-    · obtain ⟨_, _, rfl⟩ := h
-      refine ⟨hk, ?_, ?_⟩ <;> simp [clive, move] <;> omega
+    cases ok <;> simp [cstep, CState.mv] at h <;> obtain ⟨_, _, rfl⟩ := h <;>
+      refine ⟨hk, ?_⟩ <;> simp [clive, move] <;> omega
   | pop ok =>
-    cases ok <;> simp [cstep, CState.mv] at h
-    · omega
-    · obtain ⟨_, _, rfl⟩ := h
-      refine ⟨hk, ?_, ?_⟩ <;> simp [clive, move] <;> omega
+    cases ok <;> simp [cstep, CState.mv] at h <;> obtain ⟨_, _, rfl⟩ := h <;>
+      refine ⟨hk, ?_⟩ <;> simp [clive, move] <;> omega
   | killPass =>
     have hj' : s.kill ≠ -1 := by omega
     simp [cstep, CState.mv, hj'] at h
     obtain ⟨_, _, rfl⟩ := h
-    refine ⟨hk, ?_, ?_⟩ <;> simp [clive, move] <;> omega
+    refine ⟨hk, ?_⟩; simp [clive, move]; omega
+  | drainExit =>
+    have hj' : s.kill ≠ -1 := by omega
+    simp [cstep, CState.mv, hj'] at h
+    obtain ⟨_, rfl⟩ := h
+    refine ⟨hk, ?_⟩; simp [clive, move]; omega
   | killExit =>
     simp [cstep, CState.mv] at h
     obtain ⟨_, _, rfl⟩ := h
-    refine ⟨by simp; omega, ?_, ?_⟩ <;> simp [clive, move] <;> omega
+    refine ⟨by simp; omega, ?_⟩; simp [clive, move]; omega
   | readQ =>
     simp only [cstep] at h
     split at h <;> simp [CState.mv] at h <;> obtain ⟨_, rfl⟩ := h <;>
-      refine ⟨hk, ?_, ?_⟩ <;> simp [clive, move] <;> omega
+      refine ⟨hk, ?_⟩ <;> simp [clive, move] <;> omega
   | readKill p =>
     cases p <;> by_cases hk0 : s.kill = 0 <;> simp [cstep, CState.mv, hk0] at h <;> obtain ⟨_, rfl⟩ := h <;>
-      refine ⟨by simp [hk0] <;> omega, ?_, ?_⟩ <;> simp [clive, move, hk0] <;> omega
+      refine ⟨by simp [hk0] <;> omega, ?_⟩ <;> simp [clive, move, hk0] <;> omega
   | aSignal w =>
     cases w <;> simp [cstep, CState.mv] at h <;> obtain ⟨_, _, rfl⟩ := h <;>
-      refine ⟨hk, ?_, ?_⟩ <;> simp [clive, move] <;> omega
+      refine ⟨hk, ?_⟩ <;> simp [clive, move] <;> omega
   | swcBcast =>
     simp [cstep] at h; obtain ⟨_, rfl⟩ := h
-    refine ⟨hk, ?_, ?_⟩ <;> simp [clive, cwakeAll] <;> omega
+    refine ⟨hk, ?_⟩; simp [clive, cwakeAll]; omega
   | bcast =>
     simp [cstep] at h; subst h
-    refine ⟨hk, ?_, ?_⟩ <;> simp [clive, cwakeAll] <;> omega
+    refine ⟨hk, ?_⟩; simp [clive, cwakeAll]; omega
   | _ =>
     simp [cstep, CState.mv, clockFree, holders] at h <;>
     (first
       | (obtain ⟨_, _, rfl⟩ := h)
       | (obtain ⟨_, rfl⟩ := h)
       | subst h) <;>
-    refine ⟨hk, ?_, ?_⟩ <;> simp [clive, move] <;> omega
+    refine ⟨hk, ?_⟩ <;> simp [clive, move] <;> omega
+
+/-! ### ranking: pool-internal steps that do not start a task are bounded -/
+
+/-- events the pool performs on its own (worker steps, the rest of calls already in flight) -/
+def CEvent.internal : CEvent → Bool
+  | .aPush | .swcUp _ | .swcDown _ | .swcSet _ | .joinKill | .bcast => false
+  | _ => true
+
+def CEvent.isPop : CEvent → Bool
+  | .pop _ => true
+  | _ => false
+
+/-- distance of the pool from the next `Pop` of a queued task: per worker the number of its own
+    steps until it is at the Pop (a parked worker needs a notification first), plus the steps left
+    of the calls in flight -/
+def cmu (s : CState) : Nat :=
+  15 * s.cnt .run + 14 * s.cnt .drained + 13 * s.cnt .noTask + 12 * s.cnt .idleReg + 11 * s.cnt .hasL
+  + 10 * s.cnt .readQT + 10 * s.cnt .readQF + 9 * s.cnt .willWait + 8 * s.cnt .waiting + 7 * s.cnt .woken
+  + 6 * s.cnt .unlocking + 5 * s.cnt .unreg + 4 * s.cnt .head + 3 * s.cnt .chkT + 3 * s.cnt .chkF
+  + s.cnt .exiting + 2 * s.pushed + s.adderL + 2 * s.swcPend + s.swcL
+
+set_option maxHeartbeats 1600000 in
+theorem cmu_step {s s' : CState} {e : CEvent} (h : cstep s e = some s') (hi : e.internal = true)
+    (hp : e.isPop = false) (hq : 0 < s.queue) : cmu s' + 1 ≤ cmu s ∧ s'.queue = s.queue := by
+  cases e with
+  | aPush => simp [CEvent.internal] at hi
+  | swcUp _ => simp [CEvent.internal] at hi
+  | swcDown _ => simp [CEvent.internal] at hi
+  | swcSet _ => simp [CEvent.internal] at hi
+  | joinKill => simp [CEvent.internal] at hi
+  | bcast => simp [CEvent.internal] at hi
+  | pop _ => simp [CEvent.isPop] at hp
+  | popNone ok => simp [cstep] at h; omega
+  | killPass =>
+    by_cases hj : s.kill = -1 <;> simp [cstep, CState.mv, hj] at h <;>
+      (first | (obtain ⟨_, _, rfl⟩ := h) | (obtain ⟨_, rfl⟩ := h)) <;> simp [cmu, move] <;> omega
+  | drainExit =>
+    by_cases hj : s.kill = -1 <;> simp [cstep, CState.mv, hj] at h <;> obtain ⟨_, rfl⟩ := h <;>
+      simp [cmu, move] <;> omega
+  | readQ =>
+    simp only [cstep] at h
+    split at h <;> simp [CState.mv] at h <;> obtain ⟨_, rfl⟩ := h <;> simp [cmu, move] <;> omega
+  | readKill p =>
+    cases p <;> by_cases hk0 : s.kill = 0 <;> simp [cstep, CState.mv, hk0] at h <;> obtain ⟨_, rfl⟩ := h <;>
+      simp [cmu, move] <;> omega
+  | aSignal w =>
+    cases w <;> simp [cstep, CState.mv] at h <;> obtain ⟨_, _, rfl⟩ := h <;> simp [cmu, move] <;> omega
+  | swcBcast =>
+    simp [cstep] at h; obtain ⟨_, rfl⟩ := h
+    simp [cmu, cwakeAll]; omega
+  | _ =>
+    simp [cstep, CState.mv, clockFree, holders] at h <;>
+    (first
+      | (obtain ⟨_, _, rfl⟩ := h)
+      | (obtain ⟨_, rfl⟩ := h)
+      | subst h) <;>
+    simp [cmu, move] <;> omega
 
 /-- reachable states of the per-worker LTS abstract to reachable counting states -/
 theorem reachable_abs {s : State} (h : Reachable repaired s) : CReachable (abs s) := by
